@@ -19,8 +19,12 @@ PLATFORM_WRAPS = ["lock_init", "lock_acquire", "try_lock_acquire", "lock_release
                   "event_wait", "event_notify_all", "thread_init", "thread_create", "thread_join", "clock_init", "clock_tic",
                   "clock_toc", "clock_toc_ms", "clock_cmp_now", "clock_sleep_ms"]
 
-RULES = {"BlockedWhileDrained", "BlockedWhileRefusing", "WriteRefusedWhileAccepting", "WriteGrantedWhileRefusing",
-         "HangWriterAsleepWhileRefusing", "HangWriterAsleepWhileDrained", "HangOther"}
+RULES = {"WriterAsleepThoughGrantable", "BlockedWhileDrained", "BlockedWhileRefusing", "WriteRefusedWhileAccepting", "WriteGrantedWhileRefusing",
+         "HangWriterAsleepWhileRefusing", "HangWriterAsleepWhileDrained"}
+# "HangOther" (writer asleep, accepting, readers not drained, or some other deadlock) is NOT a violation by itself: a writer may
+# legitimately wait forever for readers that have stopped reading. The spurious-wake probe turns the illegitimate cases into
+# WriterAsleepThoughGrantable.
+IGNORED_RULES = {"HangOther"}
 
 PC_AT = {"wm_lock": "lock_acquire", "wu_lock": "lock_acquire", "wa_lock": "lock_acquire", "rm_lock": "lock_acquire",
          "ru_lock": "lock_acquire", "ca_lock": "lock_acquire", "wm_rel": "lock_released", "wx_rel": "lock_released",
@@ -133,15 +137,42 @@ def random_config(rng, i, out):
     lines.append("writer " + " ".join("%d%s" % (rng.randint(1, cap - 1), "a" if rng.random() < 0.1 else "c") for _ in range(nwr)))
     pol = []
     for r in range(nr):
-        pol.append(rng.choice(["full", "rand", "hold", "stall", "full"]))
+        pol.append(rng.choice(["full", "rand", "hold", "stall", "pstall", "hpstall", "full"]))
         lines.append("reader loop " + pol[-1])
     mode = rng.random()
-    if mode < 0.75 or "stall" in pol:
-        # with a stalled reader only a refusal that stays in force can release the writer
-        lines.append("controller 0" if ("stall" in pol or rng.random() < 0.6) else "controller 0 1")
+    stalls = "stall" in pol or "pstall" in pol or "hpstall" in pol
+    if mode < 0.75 and not (stalls and rng.random() < 0.4):
+        # with a stalled reader only a refusal that stays in force can release the writer (40% of the stalled runs have no
+        # controller at all: the writer may then block for good, which is legitimate unless the probe shows otherwise)
+        lines.append("controller 0" if (stalls or rng.random() < 0.6) else "controller 0 1")
         lines.append("cdelay %d" % rng.choice([0, 1, 2, 3, 5, 8, 12, 20, 30, 45]))
     lines.append("out " + out)
     return "\n".join(lines) + "\n"
+
+
+def window_configs(rng, nbase):
+    """Systematic sweep of C03's quantifier: for seeded base programs in which the writer runs into a full ring while a
+    reader holds / lags, the k next steps of thread t are placed right after the i-th time the writer stops between its
+    predicate check and its sleep (scheduling point cv_wait_enter). Readers end with a partial unmap and then stall, so a
+    wake-up lost inside the window is never repaired by a later notify; the spurious-wake probe then decides."""
+    out = []
+    for b in range(nbase):
+        cap = rng.choice([3, 4, 4, 5, 8])
+        nr = rng.choice([1, 1, 2])
+        base = ["cap %d" % cap, "seed %d" % rng.randint(1, 10**9), "strategy rr" if b % 2 == 0 else "strategy random"]
+        sizes = [cap - 1] + [rng.randint(1, cap - 1) for _ in range(rng.randint(2, 5))]
+        base.append("writer " + " ".join("%dc" % n for n in sizes))
+        for r in range(nr):
+            base.append("reader loop " + (rng.choice(["hpstall", "hpstall", "pstall"]) if r == 0 else rng.choice(["hpstall", "full", "rand", "hold"])))
+        has_ctl = rng.random() < 0.4
+        if has_ctl:
+            base += ["controller 0", "cdelay %d" % rng.choice([0, 2, 6, 15])]
+        threads = list(range(2, 2 + nr)) + ([2 + nr] if has_ctl else [])
+        for i in range(2):
+            for t in threads:
+                for k in (1, 2, 3, 4, 5, 6, 8):
+                    out.append(base + ["window cv_wait_enter %d %d %d" % (i, t, k)])
+    return out
 
 
 def run_many(exe, cfgs, timeout=60):
@@ -187,6 +218,9 @@ def judge(chk, trace, idx, cfgs, bdir, kind):
     for rule, line in v["bad"]:
         if rule in seq.HARNESS_RULES:
             raise Broken("harness misuse flagged by ChannelObs: %s at %s:%d" % (rule, trace, line))
+        if rule in IGNORED_RULES:
+            chk.add("hangs_with_legitimately_blocked_writer", 1)
+            continue
         if rule not in RULES:
             chk.notes.append("refusal by a rule of another property: %s" % rule)
             continue
@@ -272,6 +306,16 @@ def main(prop, tier):
             open(p, "w").write(random_config(rng, i, out))
             cfgs.append(p)
             traces.append(out)
+        nwin = 0
+        for wl in window_configs(rng, 150 if thorough else 40):
+            i = len(cfgs)
+            out = os.path.join(bdir, "r_%d.ndjson" % i)
+            p = os.path.join(bdir, "r_%d.cfg" % i)
+            open(p, "w").write("\n".join(wl) + "\nout %s\n" % out)
+            cfgs.append(p)
+            traces.append(out)
+            nwin += 1
+        chk.set("window_sweep_runs", nwin)
         res = run_many(exe, cfgs)
         broken = [(c, rc, o) for c, (rc, o) in zip(cfgs, res) if rc != 0]
         if broken:
